@@ -14,8 +14,10 @@ import (
 	"context"
 	"fmt"
 	"io/ioutil"
+	"os"
 	"reflect"
 	"sort"
+	"strconv"
 	"strings"
 	"testing"
 	"time"
@@ -31,7 +33,11 @@ import (
 )
 
 func init() {
-	grpclog.SetLoggerV2(grpclog.NewLoggerV2(ioutil.Discard, ioutil.Discard, ioutil.Discard))
+	// output is discarded, but the verbosity asked for through gRPC's own
+	// environment variable is honoured: vcheck runs every other batch with verbose
+	// logging so that the statements behind log.V(...) are executed (and formatted)
+	v, _ := strconv.Atoi(os.Getenv("GRPC_GO_LOG_VERBOSITY_LEVEL"))
+	grpclog.SetLoggerV2(grpclog.NewLoggerV2WithVerbosity(ioutil.Discard, ioutil.Discard, ioutil.Discard, v))
 }
 
 // ------------------------------------------------------------------ fakes
